@@ -69,12 +69,13 @@ impl Datagrams<'_> {
         let max_size = self.conn.path.current_mtu() as usize
             - self.conn.predict_1rtt_overhead(None)
             - Datagram::SIZE_BOUND;
+        // A limit too small for our framing of even an empty datagram leaves nothing to send
         let limit = self
             .conn
             .peer_params
             .max_datagram_frame_size?
             .into_inner()
-            .saturating_sub(Datagram::SIZE_BOUND as u64);
+            .checked_sub(Datagram::SIZE_BOUND as u64)?;
         Some(limit.min(max_size as u64) as usize)
     }
 
